@@ -234,6 +234,29 @@ def corpus_absent_share_tests():
         ["readv", [], [[0, 10]]], ["leases"], ["dump"]]}
 
 
+def corpus_recreate_under_other_enabler():
+    """a share is created under enabler A, written, deleted (new_length = 0), and re-created at the same path under
+    enabler B: a request that still presents A must be refused (the enabler is always checked against the header on
+    disk), B must work; same again for a second share number"""
+    s1, s2 = hx(b"\x41" * 32), hx(b"\x81" * 32)
+    ops = []
+    for n in (0, 3):
+        t = 10 * n          # the clock only moves forwards
+        ops += [
+            ["rtw", t + 1, 10 ** 12, WE, s1, s2, True, [[n, [], [[0, hx(b"under-A")]], None]], []],
+            ["rtw", t + 2, 10 ** 12, WE, s1, s2, False, [[n, [], [[7, hx(b"!")]], None]], [[0, 20]]],      # A verified once more
+            ["rtw", t + 3, 10 ** 12, WE, s1, s2, False, [[n, [], [], 0]], []],                              # delete
+            ["dump"],
+            ["rtw", t + 4, 10 ** 12, WE2, s1, s2, True, [[n, [], [[0, hx(b"under-B")]], None]], []],       # re-create under B
+            ["rtw", t + 5, 10 ** 12, WE, s1, s2, False, [[n, [], [[0, hx(b"STALE-A")]], None]], [[0, 20]]],  # stale A: refuse
+            ["rtw", t + 6, 10 ** 12, WE, s1, s2, False, [[n, [], [], 0]], [[0, 20]]],                       # stale A delete: refuse
+            ["readv", [], [[0, 20]]],
+            ["rtw", t + 7, 10 ** 12, WE2, s1, s2, False, [[n, [], [[0, hx(b"B-again")]], None]], [[0, 20]]],
+            ["readv", [], [[0, 20]]], ["dump"],
+            ["rtw", t + 8, 10 ** 12, WE2, s1, s2, False, [[n, [], [], 0]], []]]                             # clean up under B
+    return {"nodeid": hx(sc.NODEID), "ops": ops}
+
+
 def corpus_mixed_enablers():
     """two shares recorded under different write enablers; requests with each of them (so that, whatever the
     directory listing order, one request matches the first-listed share only), then with a third one"""
@@ -258,7 +281,7 @@ def run(ctx):
             hists = [ctx.replay["case"]["history"]]
         else:
             hists += [corpus_partial_write(), corpus_mixed_enablers(), corpus_oversize_with_new_length(),
-                      corpus_absent_share_tests()]
+                      corpus_absent_share_tests(), corpus_recreate_under_other_enabler()]
             n = 0 if os.environ.get("VERIF_CORPUS_ONLY") else ctx.budget(100, 5000)
             for i in range(n):
                 hists.append(gen_full_history(ctx.rng, ctx.rng.choice([3, 8, 20]), ctx.rng.choice([2000, 2000, 30000]),
